@@ -267,6 +267,18 @@ func (c *Ctx) strictGuard(fi *FuncInfo) {
 		if len(rel) == 0 {
 			return true
 		}
+		// a refusal is an error return that sits inside an if on monophyly / strictness; an error return
+		// further down that merely comes after such an if (and so carries its negation) is another matter
+		nested := false
+		st := stackTo(fi.Decl.Body, ret)
+		for k := 0; k+1 < len(st); k++ {
+			if is, isIf := st[k].(*ast.IfStmt); isIf && (mentions(info, is.Cond, mono) || mentions(info, is.Cond, strict)) && !nodeContains(is.Cond, ret.Pos()) {
+				nested = true
+			}
+		}
+		if !nested {
+			return true
+		}
 		found++
 		code := c.condsToBexpr(info, rel, nil)
 		spec := bAnd(bNot(bAtom(mono.Name())), bAtom(strict.Name()))
@@ -529,12 +541,57 @@ func (c *Ctx) reorderRules() {
 				}
 			}
 		}
+		// the inversion done by a per-branch helper (`orientEdgeFrom(n, next, reversed)`): read as if it
+		// were written in place, the helper's own guard joined to the caller's
+		var helperCode *bexpr
+		var helperCall *ast.CallExpr
+		helperE := ""
+		if inv == nil {
+			for _, call := range callsIn(fi.Decl.Body, false) {
+				g := calleeOf(info, call)
+				gi := c.FuncOfObj(g)
+				if g == nil || gi == nil || gi.Decl.Body == nil || g == fi.Obj || !inRepo(g) || gi.Pkg != fi.Pkg || helperCall != nil {
+					continue
+				}
+				ginfo := gi.Pkg.TypesInfo
+				var hinv *ast.CallExpr
+				for _, hc := range callsIn(gi.Decl.Body, false) {
+					if isRepoFunc(calleeOf(ginfo, hc), "tree", "Edge", "Inverse") {
+						hinv = hc
+					}
+				}
+				if hinv == nil {
+					continue
+				}
+				sub := &canonOpts{subst: map[types.Object]string{}}
+				for k, a := range call.Args {
+					if pr := paramObj(ginfo, gi.Decl, k); pr != nil {
+						sub.subst[pr] = c.canon(info, a, nil)
+					}
+				}
+				hconds, okh := c.pathConds(ginfo, gi.Decl.Body, hinv, true)
+				if !okh {
+					continue
+				}
+				if sel, ok := unparen(hinv.Fun).(*ast.SelectorExpr); ok {
+					helperE = c.canon(ginfo, sel.X, sub)
+				}
+				helperCode = c.condsToBexpr(ginfo, hconds, sub)
+				helperCall = call
+			}
+			if helperCall != nil {
+				inv = helperCall
+			}
+		}
 		// the branch being looked at = the receiver of Inverse, whatever the loop form
 		e := ""
 		inLoop := false
 		if inv != nil {
 			if sel, ok := unparen(inv.Fun).(*ast.SelectorExpr); ok {
 				e = c.canon(info, sel.X, nil)
+			}
+			if helperCall != nil {
+				e = helperE
 			}
 			for _, a := range stackTo(fi.Decl.Body, inv) {
 				switch a.(type) {
@@ -551,6 +608,9 @@ func (c *Ctx) reorderRules() {
 			// over the branches of n other than the one to prev: inverse <=> right == n
 			conds, okc := c.pathConds(info, fi.Decl.Body, inv, true)
 			code := c.condsToBexpr(info, conds, nil)
+			if helperCode != nil {
+				code = bAnd(code, helperCode)
+			}
 			notPrev := bAnd(bCmp(e+".right", token.NEQ, prev), bCmp(e+".left", token.NEQ, prev))
 			spec := bAnd(notPrev, bCmp(e+".right", token.EQL, n))
 			if !okc {
